@@ -14,7 +14,37 @@ CONFIG = {
                   "data/transactions/logic/zz_verif_avmenv_test.go",
                   "data/transactions/logic/zz_verif_avmtables_test.go"],
         "util": [("data/transactions/logic", "logic")],
-        "env": {"quick": {"VERIF_C34_B": 4000}, "thorough": {"VERIF_C34_B": 120000}},
+        "env": {"quick": {"VERIF_C34_B": 4000}, "thorough": {"VERIF_C34_B": 150000}},
         "timeout": {"quick": 900, "thorough": 3000},
     }],
+    "rule": "x: every opcode byte 0..255 (every sub-opcode byte of a prefix opcode; every field byte of an opcode with a field "
+            "immediate -- quick: up to 2 past the group plus 254/255, thorough: all 256) x every program version 0..LogicVersion x "
+            "both modes, as a minimal crafted program (constant blocks, argument pushes, the instruction) through the real "
+            "CheckSignature/CheckContract and EvalSignatureFull/EvalContract on a populated mock ledger; the instruction is observed "
+            "with the Tracer hooks (stack before, remaining budget, error class, LedgerForLogic calls). b: random branch layouts "
+            "(bnz/bz/b/callsub/retsub/switch/match/constant blocks, 2-byte and varint offsets, targets on/off instruction boundaries, "
+            "corrupted and truncated programs): real check(), the instructionStarts of the real checkStep, pc/callstack trajectory "
+            "of the real evaluation. Non-trivial: x when the instruction executed or must be rejected, b when the check passed and "
+            "at least one instruction ran; distinct = distinct case lines.",
+    "exhaustive": {"quick": False, "thorough": True},
+    "explanation": "theorems quantify over all programs, versions, modes, states and op-function families (contracts stated); the "
+                   "opcode/sub-opcode/field x version x mode space is enumerated completely in the thorough tier, branch layouts are sampled",
+    "assumptions": [
+        "op functions validate their field immediates against the field tables (contract field_gate of executed_instruction_is_allowed; "
+        "checked on the real code for every field byte x version x mode by the x cases)",
+        "control-flow and constant-block op functions compute nextpc / callstack with the decoders shared with the static check "
+        "(contract ctl_allowed of check_eval_agree; checked on every step of every traced evaluation)",
+        "ledger state = what is reached through LedgerForLogic (accounts, assets, apps, boxes, inner transactions, round/timestamp); "
+        "block headers via LedgerForSignature (`block`, txn FirstValidTime) are available to signature mode by design",
+        "the version a feature was introduced in is the Version column of OpSpecs / field specs of the running code (regenerated)",
+    ],
+    "trusted_base": [
+        "modelled: eval.go GetOpSpec/begin/check/checkStep/checkBranch*/checkSwitch/branchTarget*/switchTarget/step, "
+        "assembler.go parse{Int,Byte}ImmArgs, opcodes.go init()/linearCost/OpDetails.Cost (coq/model/AvmFrame.v, AvmTable.v); the op "
+        "functions themselves are abstract",
+        "translator harness/go/data/transactions/logic/zz_verif_avmtables_test.go (prints Go tables as Coq data; function identity via "
+        "reflect pointers; itxn_field -> ItxnSettableFields override as in cmd/opdoc); cross-checked by the x cases (model check/step "
+        "classes computed from the dumped tables must equal the real ones) and by tables_built_by_init",
+        "error-text classifiers in zz_verif_avmenv_test.go",
+    ],
 }
